@@ -52,6 +52,56 @@ fn statement_dependencies(statement: &Statement) -> BTreeSet<usize> {
     }
 }
 
+/// The type declarations of `statements`, each after the declarations it mentions, as far as
+/// there is such an order: declarations that mention each other in a circle stay in source order.
+pub(crate) fn type_declaration_order<'a>(statements: &'a [Statement]) -> Vec<&'a Statement> {
+    fn mentioned(statement: &Statement) -> BTreeSet<usize> {
+        match statement {
+            Statement::Blob { fields, .. } => {
+                fields.values().flat_map(|(_, ty)| ty_dependency(ty)).collect()
+            }
+            Statement::Enum { variants, .. } => {
+                variants.values().flat_map(|(_, ty)| ty_dependency(ty)).collect()
+            }
+            _ => BTreeSet::new(),
+        }
+    }
+
+    fn visit<'a>(
+        var: usize,
+        declarations: &BTreeMap<usize, &'a Statement>,
+        visited: &mut BTreeSet<usize>,
+        ordered: &mut Vec<&'a Statement>,
+    ) {
+        let declaration = match declarations.get(&var) {
+            Some(declaration) => *declaration,
+            None => return,
+        };
+        if !visited.insert(var) {
+            return;
+        }
+        for other in mentioned(declaration) {
+            visit(other, declarations, visited, ordered);
+        }
+        ordered.push(declaration);
+    }
+
+    let in_source_order: Vec<(usize, &Statement)> = statements
+        .iter()
+        .filter_map(|statement| match statement {
+            Statement::Blob { var, .. } | Statement::Enum { var, .. } => Some((*var, statement)),
+            _ => None,
+        })
+        .collect();
+    let declarations = in_source_order.iter().cloned().collect();
+    let mut visited = BTreeSet::new();
+    let mut ordered = Vec::new();
+    for (var, _) in in_source_order.iter() {
+        visit(*var, &declarations, &mut visited, &mut ordered);
+    }
+    ordered
+}
+
 fn ty_dependency(ty: &Type) -> BTreeSet<usize> {
     match &ty {
         Type::UserType(r, t, _) => {
